@@ -70,6 +70,7 @@ type CheckCfg struct {
 	Outside     []string          `json:"outside_claim"`
 	Bounds      []string          `json:"bounds"`
 	TimeoutMs   int               `json:"solver_timeout_ms"`
+	Parts       []string          `json:"parts"` // further check directories reported under this property (parts.go)
 }
 
 type KnownFinding struct {
@@ -91,7 +92,7 @@ func main() {
 	switch os.Args[1] {
 	case "run":
 		stop := startProfile()
-		rc := cmdRun(os.Args[2], os.Args[3:])
+		rc := runWithParts(os.Args[2], os.Args[3:])
 		stop()
 		os.Exit(rc)
 	case "replay":
@@ -305,7 +306,7 @@ type ssaFunction = sym.SSAFunction
 // ---------------------------------------------------------------- verdict, evidence
 
 func inconclusive(id, tier string, seed int, t0 time.Time, reason string, c *CheckCfg, extra map[string]interface{}) int {
-	fmt.Printf("INCONCLUSIVE property=%s reason=%s\n", id, oneLine(reason))
+	fmt.Printf("INCONCLUSIVE property=%s reason=%s\n", pid(id), oneLine(reason))
 	cov := map[string]interface{}{
 		"explanation": "run was inconclusive: " + reason,
 		"evaluations": 1, "distinct_nontrivial": 0,
@@ -455,7 +456,7 @@ func finish(id, tier string, seed int, t0 time.Time, c *CheckCfg, dir string, ld
 		for vi, v := range rep.Violations {
 			cex := renderCex(v)
 			path := filepath.Join(verifDir, "replays", id, fmt.Sprintf("%s_%s_%d.json", r.cfg.Func, sanitizeFile(v.Label), vi))
-			rc := replayCase{Entry: r.cfg.Func, Vector: v.Vector, Params: r.params, Label: v.Label, Msg: v.Msg, Names: v.Names, Property: id}
+			rc := replayCase{Entry: r.cfg.Func, Vector: v.Vector, Params: r.params, Label: v.Label, Msg: v.Msg, Names: v.Names, Property: pid(id)}
 			b, _ := json.MarshalIndent(rc, "", " ")
 			os.WriteFile(path, b, 0644)
 			reproduced, detail := false, ""
@@ -475,13 +476,13 @@ func finish(id, tier string, seed int, t0 time.Time, c *CheckCfg, dir string, ld
 				key := kf.Label + "|" + kf.Entry + "|" + kf.Match
 				if !knownPrinted[key] {
 					knownPrinted[key] = true
-					fmt.Printf("KNOWN-FINDING: property=%s %s [label=%s entry=%s]\n", id, kf.What, v.Label, r.cfg.Func)
+					fmt.Printf("KNOWN-FINDING: property=%s %s [label=%s entry=%s]\n", pid(id), kf.What, v.Label, r.cfg.Func)
 				}
 				continue
 			}
 			nviol++
 			if printed < 6 {
-				newViol = append(newViol, fmt.Sprintf("VIOLATION property=%s replay=%s", id, path))
+				newViol = append(newViol, fmt.Sprintf("VIOLATION property=%s replay=%s", pid(id), path))
 				fmt.Printf("  violated: %s — %s\n  counterexample: %s\n  native replay: %s\n", v.Label, v.Msg, cex, detail)
 			}
 			printed++
@@ -563,11 +564,11 @@ func finish(id, tier string, seed int, t0 time.Time, c *CheckCfg, dir string, ld
 	if len(inconcl) > 0 {
 		sort.Strings(inconcl)
 		for _, m := range inconcl {
-			fmt.Printf("INCONCLUSIVE property=%s reason=%s\n", id, oneLine(m))
+			fmt.Printf("INCONCLUSIVE property=%s reason=%s\n", pid(id), oneLine(m))
 		}
 		return 2
 	}
-	fmt.Printf("OK property=%s tier=%s paths=%d queries=%d validated=%d wall=%.1fs\n", id, tier, states, queries, validated, time.Since(t0).Seconds())
+	fmt.Printf("OK property=%s tier=%s paths=%d queries=%d validated=%d wall=%.1fs\n", pid(id), tier, states, queries, validated, time.Since(t0).Seconds())
 	return 0
 }
 
@@ -604,7 +605,7 @@ func sanitizeFile(s string) string {
 func matchKnown(known []KnownFinding, id, entry, label, cex string) *KnownFinding {
 	for k := range known {
 		kf := &known[k]
-		if kf.Property != id || kf.Status == "fixed" {
+		if kf.Property != pid(id) || kf.Status == "fixed" {
 			continue
 		}
 		if kf.Label != "" && kf.Label != label {
@@ -826,7 +827,7 @@ func cmdReplay(id, file string) int {
 	ok, detail := out[0].reproduces(rc.Label)
 	fmt.Printf("replay %s entry=%s label=%s: %s\n", id, rc.Entry, rc.Label, detail)
 	if ok {
-		fmt.Printf("VIOLATION property=%s replay=%s\n", id, file)
+		fmt.Printf("VIOLATION property=%s replay=%s\n", pid(id), file)
 		return 1
 	}
 	return 0
